@@ -531,7 +531,7 @@ func (g *gen) stmts() []any {
 			}
 		}
 		t1, t2 := g.pick([]string{"int", "bool", "string"}), g.pick([]string{"int", "bool", "string"})
-		e1, e2 := g.expr(t1, 1), g.expr(t2, 1)
+		e1, e2 := g.expr(t1, 2), g.expr(t2, 2)
 		n1 := g.fresh(t1)
 		g.declare(&vinfo{name: n1, ty: t1, minLen: staticLen(e1)})
 		n2 := g.fresh(t2)
@@ -738,7 +738,7 @@ func (g *gen) funcDef(globals []*vinfo) N {
 }
 
 func genProgram(r *rand.Rand, kind string, avoid map[string]bool, small bool) []any {
-	g := &gen{r: r, kind: kind, avoid: avoid, scopes: [][]*vinfo{{}}, budget: 40, small: small}
+	g := &gen{r: r, kind: kind, avoid: avoid, scopes: [][]*vinfo{{}}, budget: 40, small: small, usedInFunc: map[string]bool{}}
 	body := []any{}
 	n := 4 + r.Intn(9)
 	for k := 0; k < n; k++ {
